@@ -1372,6 +1372,8 @@ func ruleE12(c *Ctx) []Ob {
 				if call, ok := cd.V.(*ssa.Call); ok && !cd.Truth {
 					if f := call.Call.StaticCallee(); f != nil && fnPkgPath(f) == "strings" && f.Name() == "Contains" && strings.Contains(path(call.Call.Args[0]), "keywordTab[") {
 						noKeyword = true
+					} else if f != nil && isKeywordPredicate(f) {
+						noKeyword = true
 					}
 				}
 			}
